@@ -516,7 +516,7 @@ func (vc *VC) resolveCallee(fromPkg *Pkg, info *types.Info, fn *types.Func, recv
 	}
 	sig := fn.Type().(*types.Signature) // instantiated signature for methods of instantiated types
 	osig := origin.Type().(*types.Signature)
-	if c != nil && info != nil {
+	if c != nil && info != nil && osig.TypeParams() != nil && osig.TypeParams().Len() > 0 {
 		if t := info.TypeOf(c.Fun); t != nil {
 			if s2, ok := t.(*types.Signature); ok {
 				sig = s2 // instantiated generic function
@@ -898,7 +898,19 @@ func (vc *VC) pureApp(st *State, cal *Callee, recv *Value, args []Value) Value {
 	rt := cal.rTypes[0]
 	sym := "pure!" + sanitize(cal.pkg.Types.Name()+"."+cal.key)
 	vc.declareFun(sym, sorts, vc.sortOf(rt))
-	return Value{T: app(vc.sortOf(rt), sym, ts...), Ty: rt}
+	t := app(vc.sortOf(rt), sym, ts...)
+	// name the application by a constant (pure definition, asserted globally)
+	// unless it mentions a bound variable
+	if !strings.Contains(t.S, "!q") {
+		if c, ok := vc.defs[t.S]; ok {
+			return Value{T: c, Ty: rt}
+		}
+		c := vc.fresh("app_"+cal.fn.Name(), t.Sort)
+		vc.defs[t.S] = c
+		vc.axioms = append(vc.axioms, tEq(c, t))
+		return Value{T: c, Ty: rt}
+	}
+	return Value{T: t, Ty: rt}
 }
 
 // pureCall: call of a pure Go function inside a spec expression.
